@@ -202,8 +202,7 @@ def lagrange(
         x_new_scaled = (x_new - _xm) / _xs
 
         # Figure out which points to use for the interpolation
-        # (distances as floats: the difference of two unsigned integer arrays wraps around)
-        start_idxs = np.abs(x[:, None] - x_new[None, :].astype(float)).argmin(axis=0) - window // 2
+        start_idxs = np.abs(x[:, None] - x_new[None, :]).argmin(axis=0) - window // 2
         start_idxs[start_idxs < 0] = 0
         start_idxs[start_idxs > len(x) - window] = len(x) - window
 
